@@ -23,7 +23,7 @@ def run(ctx: Ctx) -> None:
     ctx.rule("C13.R5", "H2Protocol.initiate(headers) creates stream 1 from the upgrade request and ends its body; the h2c error carries :method/:path/:authority and the HTTP2-Settings value", floor=4)
     ctx.rule("C13.R6", "ALPN and TLS state are read from the transport in both workers; cleartext connections start as http/1.1", floor=4)
     ctx.rule("C13.R8", "a GET with Upgrade: websocket and a Connection header containing the token `upgrade` (any spacing/case, any position) starts a WebSocket; HTTP/2 CONNECT does (same table as C11.R2)", floor=2)
-    ctx.rule("C13.R6", "library calls on the hand-over path (H2Protocol.initiate) bind against the installed h2 (a mismatch is a TypeError right after the 101 response)", floor=1)
+    ctx.rule("C13.R9", "library calls on the hand-over path (H2Protocol.initiate) bind against the installed h2 (a mismatch is a TypeError right after the 101 response)", floor=1)
     ctx.rule("C13.R7", "WebSocket pass-through after the HTTP/1.1 upgrade is seeded with h11's trailing data and returns every buffered byte once", floor=4)
 
     pw = repo.func("protocol", "ProtocolWrapper.__init__")
@@ -197,9 +197,9 @@ def run(ctx: Ctx) -> None:
 
     checked, bad = signature_mismatches(repo, ["protocol.h2", "protocol"], ATTR_TYPES)
     on_path = [b for b in bad if b[1] == "H2Protocol.initiate"]
-    ctx.check("C13.R6", "protocol.h2:H2Protocol.initiate", "library calls bind", True, "", None, sample={"calls_checked": checked})
+    ctx.check("C13.R9", "protocol.h2:H2Protocol.initiate", "library calls bind", True, "", None, sample={"calls_checked": checked})
     for mod, q, c, desc, err in on_path:
-        ctx.check("C13.R6", f"{mod}:{q}", f"{desc}({', '.join([norm(a) for a in c.args] + [k.arg + '=' for k in c.keywords])})", False, f"call cannot bind against the installed library: {err}: every h2c upgrade ends in TypeError after the 101 response, stream 1 is never served", c)
+        ctx.check("C13.R9", f"{mod}:{q}", f"{desc}({', '.join([norm(a) for a in c.args] + [k.arg + '=' for k in c.keywords])})", False, f"call cannot bind against the installed library: {err}: every h2c upgrade ends in TypeError after the 101 response, stream 1 is never served", c)
 
     from .c11 import upgrade_table
 
